@@ -105,7 +105,7 @@ def gen_prog(rng):
             e = f"Piecewise(({gen_expr(rng, avail, 1)}, APGR < {rng.randint(1, 9)}), ({x}, True))"
         elif r < 0.40:
             th, eta = rng.choice(THETAS[:2] + defined[:2]), rng.choice(ETAS)   # eta forms (mu referencing)
-            e = rng.choice([f"{th}*exp({eta})", f"{th} + {eta}", f"{th}*exp({eta})*WGT"])
+            e = rng.choice([f"{th}*exp({eta})", f"{th} + {eta}", f"{th}*exp({eta})*WGT", f"{th}*(1 + {eta})"])
         elif r < 0.45:
             x = "WGT"                                               # assignment to a data column
             e = gen_expr(rng, avail)
@@ -171,6 +171,11 @@ def corpus_cases():
         {"kind": "prog", "stmts": [A("A", "POP_CL*exp(ETA_CL)"), A("Y", "A + EPS_1"),
                                    A("Y", "Piecewise((Y*2, APGR < 5), (Y, True))")],
          "base": "zero", "rename": [["A", "R_A"]], "seed": 5},
+        # proportional eta (mu must be solved for all eta, not at eta = 0) and additive eta
+        {"kind": "prog", "stmts": [A("CL", "POP_CL*(1 + ETA_CL)"), A("V", "POP_VC + ETA_VC"), A("Y", "CL/V + EPS_1")],
+         "base": "plain", "rename": [["CL", "R_CL"]], "seed": 9},
+        # fixed omega: replace_fixed_thetas removes it from the parameters
+        {"kind": "model", "base": "pheno_linear", "pre": ["fix"], "seed": 10},
         {"kind": "model", "base": "pheno", "pre": [], "seed": 6},
         {"kind": "model", "base": "pheno", "pre": ["peripheral", "absorption"], "seed": 7},
         {"kind": "model", "base": "pheno_linear", "pre": [], "seed": 8},
@@ -452,11 +457,42 @@ def _call_md(mon, tags, M, md_bad):
         return None
 
 
+def _fixed_variance_params(m, after_non_random=False):
+    """Fixed parameters that are variance/covariance parameters of a random variable of the model (replace_fixed_thetas
+    iterates over *all* fixed parameters, not only thetas).  With `after_non_random` the distributions that
+    replace_non_random_rvs removes first (all parameters fixed to 0) are left out, as in cleanup_model."""
+    out = []
+    for dist in m.random_variables:
+        ps = [m.parameters[n] for n in dist.parameter_names if n in m.parameters.names]
+        if after_non_random and ps and all(q.fix and q.init == 0 for q in ps):
+            continue
+        out += [q.name for q in ps if q.fix]
+    return sorted(set(out))
+
+
+def _rft_check(mon, what, src, R):
+    """replace_fixed_thetas / cleanup_model must not drop a parameter a remaining random variable uses."""
+    lost = [n for n in R.random_variables.parameter_names if n not in R.parameters.names]
+    if lost:
+        cls = ("replace-fixed-thetas-removes-fixed-variance-parameter"
+               if set(lost) <= set(_fixed_variance_params(src)) else "refactoring-loses-rv-parameter")
+        mon.append({"cls": cls, "what": f"{what}: random variables still use {lost}, which are no longer parameters of the model"})
+
+
+def _rft_exception_class(src, e, what, after_non_random=False):
+    fv = _fixed_variance_params(src, after_non_random)
+    if isinstance(e, KeyError) and "Could not find" in str(e) and any(n in str(e) for n in fv):
+        return "replace-fixed-thetas-removes-fixed-variance-parameter"
+    return f"internal-error:{what}"
+
+
 def _mu_class(M):
     """Witness class of a mu_reference_model failure: (1) an eta occurs in an assignment whose expression is (or
     contains) a Piecewise — `as_independent` + `sympy.solve` then produce a partial (nan) mu; (2) the eta reaches the
     assignment a second time through another symbol it reads, so the solved mu depends on the eta itself
-    (log of a quantity that is zero / negative for some eta)."""
+    (log of a quantity that is zero / negative for some eta); (3) the eta occurs more than once inside one assignment
+    (e.g. exp(-ETA/50)/(ETA+11)): `sympy.solve(old_def - new_def, mu)` returns a LambertW root of another branch instead
+    of mu = 0."""
     etas = {sympy.Symbol(n) for n in M.random_variables.etas.names}
     for s in M.statements.before_odes:
         e = exprconv.to_sympy(s.expression)
@@ -475,6 +511,10 @@ def _mu_class(M):
                     continue
                 if eta in full.free_symbols:
                     return "mu-reference-eta-reaches-twice"
+    for s in sts:
+        e = exprconv.to_sympy(s.expression)
+        if any(e.count(eta) > 1 for eta in e.free_symbols & etas):
+            return "mu-reference-eta-occurs-twice-in-assignment"
     return "mu-reference-changes-value"
 
 
@@ -688,9 +728,11 @@ def run_model(case, drv):
                 cls = "cleanup-alias-chain" if "chain" in inl_bad else "cleanup-dangling-symbol"
                 mon.append({"cls": cls, "what": f"cleanup_model of {case['base']}+{case['pre']} raised ValueError: {msg}"})
             else:
-                mon.append({"cls": "internal-error:cleanup_model", "what": f"cleanup_model raised {type(e).__name__}: {msg[:200]}"})
+                mon.append({"cls": _rft_exception_class(m, e, "cleanup_model", after_non_random=True),
+                            "what": f"cleanup_model of {case['base']}+{case['pre']} raised {type(e).__name__}: {msg[:200]}"})
         if C is not None:
             tags.append("r:cleanup_model")
+            _rft_check(mon, "cleanup_model", m, C)
             kept = [str(s.symbol) for s in C.statements if U.is_assignment(s)]
             zero = {}
             for dist in m.random_variables:
@@ -722,8 +764,16 @@ def run_model(case, drv):
         th = thetas[rng.randrange(len(thetas))]
         mf = pm.fix_parameters(m, [th])
         ov = {p.name: sympy.Rational(str(p.init)) for p in mf.parameters if p.fix}
-        R = _call(mon, tags, "replace_fixed_thetas", lambda: pm.replace_fixed_thetas(mf))
+        try:
+            R = pm.replace_fixed_thetas(mf)
+        except Exception as e:
+            if type(e).__name__ == "CaseTimeout":
+                raise
+            R = None
+            mon.append({"cls": _rft_exception_class(mf, e, "replace_fixed_thetas"),
+                        "what": f"replace_fixed_thetas of {case['base']}+{case['pre']} (fixed: {sorted(ov)}) raised {type(e).__name__}: {str(e)[:200]}"})
         if R is not None:
+            _rft_check(mon, "replace_fixed_thetas", mf, R)
             sem("replace_fixed_thetas", R, ev0_=U.evaluate(mf.statements, seed, small=small, override=ov), ev_kw={"override": ov})
     # remove_unused_parameters_and_rvs
     R = _call(mon, tags, "remove_unused_parameters_and_rvs", lambda: pm.remove_unused_parameters_and_rvs(m))
@@ -742,7 +792,10 @@ def run_model(case, drv):
             sem("create_joint_distribution", R)
             if sorted(R.random_variables.etas.names) != sorted(etas):
                 mon.append({"cls": "joint-distribution-changes-etas", "what": f"etas {etas} -> {R.random_variables.etas.names}"})
-            R2 = _call(mon, tags, "split_joint_distribution", lambda: pm.split_joint_distribution(R, etas[:2]))
+            # documented: only non-fixed etas are split; an explicitly named eta with a fixed parameter is refused
+            has_fixed = any(R.parameters[n].fix for e_ in etas[:2] for n in R.random_variables[e_].parameter_names)
+            R2 = _call(mon, tags, "split_joint_distribution", lambda: pm.split_joint_distribution(R, etas[:2]),
+                       refusal=(ValueError,) if has_fixed else ())
             if R2 is not None:
                 sem("split_joint_distribution", R2)
                 va = {n: m.random_variables.etas.get_covariance(n, n) for n in etas[:2]} if hasattr(m.random_variables.etas, "get_covariance") else None
